@@ -11,6 +11,7 @@ import (
 	"path/filepath"
 	"runtime"
 	"runtime/debug"
+	"runtime/pprof"
 	"strings"
 	"sync/atomic"
 	"time"
@@ -199,6 +200,7 @@ func cmdRun(args []string) {
 	deadline := fs.Float64("deadline", 0, "wall-clock safety net in seconds (0 = none)")
 	evlog := fs.Bool("evlog", false, "record per-run event-log hashes (determinism self-test)")
 	maxViol := fs.Int("maxviol", 3, "stop after this many violations")
+	from := fs.Int("from", 0, "first run index (diagnostics: execute runs from..runs-1 only)")
 	fs.StringVar(&treeSHA, "tree", "", "fingerprint of the instrumented tree")
 	fs.StringVar(&replayDir, "replays", "/verif/replays", "directory for replay files")
 	fs.StringVar(&fixtureDir, "fixtures", fixtureDir, "directory of archived streams")
@@ -227,7 +229,27 @@ func cmdRun(args []string) {
 		debug.SetGCPercent(-1)
 		debug.SetMemoryLimit(2 << 30)
 	}
+	if !gcOwned {
+		// the collector runs as usual in these lanes; the soft limit makes it
+		// work harder before the address-space limit of the worker is near (a
+		// starved process lets the heap overshoot between two cycles)
+		debug.SetMemoryLimit(3 << 30)
+	}
 	startWatchdog(180 * time.Second)
+	if os.Getenv("SLIMSIM_MEMDBG") != "" {
+		go func() {
+			for {
+				time.Sleep(2 * time.Second)
+				var ms runtime.MemStats
+				runtime.ReadMemStats(&ms)
+				if f, err := os.Create(os.Getenv("SLIMSIM_MEMDBG") + "/heap.prof"); err == nil {
+					pprof.WriteHeapProfile(f)
+					f.Close()
+				}
+				fmt.Fprintf(os.Stderr, "MEMDBG goroutines=%d heapInuseMB=%d heapObjects=%d stackMB=%d sysMB=%d ticks=%d chans=%s\n", runtime.NumGoroutine(), ms.HeapInuse>>20, ms.HeapObjects, ms.StackInuse>>20, ms.Sys>>20, liveTicks, clip(xsimrt.DebugChans(), 60))
+			}
+		}()
+	}
 
 	stats := newStats(*prop, *tier, *lane, *seed, *worker)
 	t0 := time.Now()
@@ -240,7 +262,7 @@ func cmdRun(args []string) {
 			writeJSON(*out, stats)
 		}
 	}
-	for run := 0; run < *runs; run++ {
+	for run := *from; run < *runs; run++ {
 		if *deadline > 0 && time.Since(t0).Seconds() > *deadline {
 			stats.Truncated = true
 			break
@@ -249,6 +271,9 @@ func cmdRun(args []string) {
 		if *cur != "" {
 			writeJSON(*cur, &ReplayFile{Tree: treeSHA, Scenario: *scn,
 				Violation: &Violation{Prop: *prop, Oracle: "data-race", Where: "race-detector", Detail: "the Go race detector reported a data race while this workload ran"}})
+		}
+		if d := os.Getenv("SLIMSIM_DUMP_SCN"); d != "" {
+			writeJSON(fmt.Sprintf("%s/scn-%s-w%d-r%d.json", d, *prop, *worker, run), &ReplayFile{Tree: treeSHA, Scenario: *scn})
 		}
 		tRun := time.Now()
 		res := execute(scn)
